@@ -120,8 +120,10 @@ def abstract_dump(tree):
 
 def py_of(text, dc):
     """-> ('raise'|'nocompile'|'ok', tree|None, out)"""
+    # dc: True / False = dictionary compression with ordinary lexing; "V" = compression on and
+    # one-letter variable names (the V flag: variables_as_digraphs)
     try:
-        out = harness.transpile(text, dc, False)
+        out = harness.transpile(text, dc in (True, "V"), dc == "V")
     except Exception:  # noqa: BLE001
         return "raise", None, None
     try:
@@ -170,7 +172,7 @@ def vocabulary():
         names, edges = set(), set()
         n = 0
         for text in benign_corpus():
-            for dc in (True, False):
+            for dc in (True, False, "V"):
                 st_, tree, _ = py_of(text, dc)
                 if st_ != "ok":
                     continue
@@ -316,7 +318,7 @@ def _shard_slots(rec, arg):
                     i += 1
                     if i % nshards != shard:
                         continue
-                    for dc in (True, False):
+                    for dc in (True, False, "V"):
                         st_, fail = check_slot(s, w, p, dc)
                         _record(rec, st_, fail, {"kind": "slot", "slot": s, "wrap": w, "payload": p, "dc": dc},
                                 (s, w, p, dc), _hard(p), f"slot-{SLOTS[s][0]}")
@@ -331,7 +333,7 @@ def _shard_raw(rec, arg):
         if idx % nshards != shard:
             continue
         s = "".join(tup)
-        for dc in (True, False):
+        for dc in (True, False, "V"):
             st_, fail = check_vocab(s, dc)
             _record(rec, st_, fail, {"kind": "raw", "text": s, "dc": dc}, (s, dc), _hard(s), f"raw-len{L}")
 
@@ -350,7 +352,7 @@ def _shard_hyp(rec, arg):
         if len(rec.samples) < 6 and st_ == "ok" and len(s) > 8:
             rec.sample({"raw": s, "dict_compress": dc})
 
-    campaign.hyp_run(t, {"s": st.one_of(s_cp, s_uni, s_mix), "dc": st.booleans()}, seed, n)
+    campaign.hyp_run(t, {"s": st.one_of(s_cp, s_uni, s_mix), "dc": st.sampled_from([True, False, "V"])}, seed, n)
 
     # structured: payload over the full code page in escaped literal slots of generated programs
     def t2(payload, slot, wrap, dc):
@@ -363,7 +365,7 @@ def _shard_hyp(rec, arg):
     pay = st.one_of(st.lists(st.one_of(hot, hot, st.sampled_from(cp)), max_size=8).map("".join),
                     st.lists(pieces, max_size=7).map("".join))
     campaign.hyp_run(t2, {"payload": pay, "slot": st.integers(0, len(SLOTS) - 1), "wrap": st.integers(0, len(WRAPPERS) - 1),
-                          "dc": st.booleans()}, seed + 1, n)
+                          "dc": st.sampled_from([True, False, "V"])}, seed + 1, n)
 
 
 def run(rec, tier, seed):
@@ -399,11 +401,11 @@ def replay(case):
             return None
         if not isinstance(case["payload"], str):
             return None
-        return check_slot(s, w, case["payload"], bool(case["dc"]))[1]
+        return check_slot(s, w, case["payload"], "V" if case["dc"] == "V" else bool(case["dc"]))[1]
     if k == "raw":
         if not isinstance(case["text"], str):
             return None
-        return check_vocab(case["text"], bool(case["dc"]))[1]
+        return check_vocab(case["text"], "V" if case["dc"] == "V" else bool(case["dc"]))[1]
     return None
 
 
